@@ -856,6 +856,46 @@ impl Check for C05 {
             };
             return serde_json::to_value(PairCase { env: env2, a, b, iso: false }).unwrap();
         }
+        // one case in fourteen: distributivity over three unrelated object types, (N | C) & (N | D) against N | (C & D) - the
+        // same set, so both directions are "yes" - and single objects against the left-hand side.  N is named and occurs
+        // in both unions (one atom met twice, once on each side of the intersection); C and D are named or inline; the
+        // decision goes through complements of diagrams whose positive and negative branch are both occupied
+        if s.chance(1, 14) {
+            let leaf = |s: &mut Src| match s.below(3) {
+                0 => D::Num,
+                1 => D::Str,
+                _ => D::Bool,
+            };
+            let (tn, tc, td) = (leaf(s), leaf(s), leaf(s));
+            let mut env2 = Env::default();
+            env2.defs.push((crate::den::DEF_NAMES[0].to_string(), D::obj(vec![("a", tn.clone(), false)])));
+            let n = D::Ref(0);
+            let mut mk = |env2: &mut Env, key: &str, t: D, s: &mut Src| -> D {
+                let d = D::obj(vec![(key, t, false)]);
+                if s.chance(1, 2) {
+                    let i = env2.defs.len();
+                    env2.defs.push((crate::den::DEF_NAMES[i].to_string(), d));
+                    D::Ref(i)
+                } else {
+                    d
+                }
+            };
+            let c = mk(&mut env2, "b", tc.clone(), s);
+            let d = mk(&mut env2, "c", td.clone(), s);
+            let pair = |x: &D, y: &D, s: &mut Src| if s.chance(1, 2) { D::Union(vec![x.clone(), y.clone()]) } else { D::Union(vec![y.clone(), x.clone()]) };
+            let lhs = D::Inter(vec![pair(&n, &c, s), pair(&n, &d, s)]);
+            let other = |t: &D| if *t == D::Num { D::Str } else { D::Num };
+            let (a, b, iso) = match s.below(6) {
+                0 => (lhs, D::Union(vec![n.clone(), D::Inter(vec![c.clone(), d.clone()])]), true),
+                1 => (D::Union(vec![D::Inter(vec![c.clone(), d.clone()]), n.clone()]), lhs, true),
+                // single objects: the body of N written in place, the same with another property type, C & D in place
+                2 => (D::obj(vec![("a", tn.clone(), false)]), lhs, false),
+                3 => (D::obj(vec![("a", other(&tn), false)]), lhs, false),
+                4 => (D::obj(vec![("b", tc.clone(), false), ("c", td.clone(), false)]), lhs, false),
+                _ => (lhs, n.clone(), false),
+            };
+            return serde_json::to_value(PairCase { env: env2, a, b, iso }).unwrap();
+        }
         // one case in twelve: a list with a rest against a union of tuples that covers it length by length (or just
         // fails to): the decision has to combine several negated tuples of different lengths
         if s.chance(1, 12) {
